@@ -383,6 +383,12 @@ func (c *FnCtx) staticWrites(in ssa.Instruction, cells map[*ssa.Alloc]bool, pre 
 		}
 	case *ssa.MapUpdate:
 		pre["M$"] = true
+	case *ssa.Next:
+		if rng, ok := in.Iter.(*ssa.Range); ok {
+			if mt := mapTypeOf(rng.X.Type()); mt != nil && c.mapKeyOK(mt) {
+				pre[c.rngFam(rng)] = true
+			}
+		}
 	case *ssa.Call:
 		for _, p := range c.callWrites(&in.Call) {
 			pre[p] = true
@@ -1755,6 +1761,9 @@ func (c *FnCtx) checkFrame() {
 		}
 		if w == "" && c.fc.IsPart {
 			ok = true // partial contracts: abstracted calls are listed, the function is not called from verified code
+		}
+		if strings.HasPrefix(w, "G$rng.") {
+			ok = true // the produced-keys set of a range over a map is local to this activation
 		}
 		if !ok {
 			missing = append(missing, "\""+w+"\"")
